@@ -115,4 +115,61 @@ def mSboxEntry (b idx : Nat) : Nat := uSbox (2 * b) (idx / 64) * 16 + uSbox (2 *
 def tab32 (f : Nat → Nat → Nat) (k n : Nat) : List UInt32 := (List.range n).map fun i => (f k i).toUInt32
 def tab8 (f : Nat → Nat → Nat) (b lo n : Nat) : List UInt8 := (List.range n).map fun i => (f b (lo + i)).toUInt8
 
+
+/-! ### the cipher function f of FIPS 46-3, bit level (used by Lemmas/DesRound.lean: the table-driven round computes it) -/
+
+/-- FIPS 46-3 E bit-selection table -/
+def E : List Nat := [
+  32,  1,  2,  3,  4,  5,  4,  5,  6,  7,  8,  9,  8,  9, 10, 11, 12, 13, 12, 13, 14, 15, 16, 17,
+  16, 17, 18, 19, 20, 21, 20, 21, 22, 23, 24, 25, 24, 25, 26, 27, 28, 29, 28, 29, 30, 31, 32,  1]
+
+/-- bit `j` of an `n`-bit word in FIPS numbering (1 = leftmost = most significant) -/
+def bitAt (n : Nat) (w : UInt32) (j : Nat) : UInt32 := (w >>> (n - j).toUInt32) &&& 1
+
+/-- a FIPS bit-selection table applied to an `n`-bit word: bit i of the result is bit `tbl[i]` of the input -/
+def gather (tbl : List Nat) (n : Nat) (w : UInt32) : UInt32 :=
+  (List.range tbl.length).foldl (fun acc i => acc ||| (bitAt n w (tbl.getD i 0) <<< (tbl.length - 1 - i).toUInt32)) 0
+
+
+/-- the `s`-th (0…3) six-bit group of a 24-bit half, leftmost first -/
+def sixAt (x : UInt32) (s : Nat) : Nat := x.toNat / 2 ^ (18 - 6 * s) % 64
+
+/-- the eight S-boxes (`uSbox s g`: row = first and last bit of the group `g`, column = its middle four bits) applied to the eight
+    six-bit groups of a 48-bit value given as two 24-bit halves; the eight 4-bit results side by side -/
+def sboxOut (xl xr : UInt32) : UInt32 :=
+  (uSbox 0 (sixAt xl 0)).toUInt32 <<< 28 ||| (uSbox 1 (sixAt xl 1)).toUInt32 <<< 24 ||| (uSbox 2 (sixAt xl 2)).toUInt32 <<< 20 |||
+  (uSbox 3 (sixAt xl 3)).toUInt32 <<< 16 ||| (uSbox 4 (sixAt xr 0)).toUInt32 <<< 12 ||| (uSbox 5 (sixAt xr 1)).toUInt32 <<< 8 |||
+  (uSbox 6 (sixAt xr 2)).toUInt32 <<< 4 ||| (uSbox 7 (sixAt xr 3)).toUInt32
+
+/-- the cipher function f(R, K) = P(S(E(R) ⊕ K)) of FIPS 46-3, K given as two 24-bit halves; crypt(3)'s salt exchanges bit i of the
+    two halves of E(R) wherever salt bit i is set (salt 0: plain DES) -/
+def fipsF (salt r kl kr : UInt32) : UInt32 :=
+  let el := gather (E.take 24) 32 r
+  let er := gather (E.drop 24) 32 r
+  let xl := ((el &&& ~~~ salt) ||| (er &&& salt)) ^^^ kl
+  let xr := ((er &&& ~~~ salt) ||| (el &&& salt)) ^^^ kr
+  gather PBOX 32 (sboxOut xl xr)
+
+
+/-- FIPS 46-3 inverse initial permutation IP⁻¹ -/
+def IPinv : List Nat := [
+  40,  8, 48, 16, 56, 24, 64, 32, 39,  7, 47, 15, 55, 23, 63, 31,
+  38,  6, 46, 14, 54, 22, 62, 30, 37,  5, 45, 13, 53, 21, 61, 29,
+  36,  4, 44, 12, 52, 20, 60, 28, 35,  3, 43, 11, 51, 19, 59, 27,
+  34,  2, 42, 10, 50, 18, 58, 26, 33,  1, 41,  9, 49, 17, 57, 25]
+
+/-- bit `j` (1…2h, FIPS numbering) of a 2h-bit value given as two h-bit halves (h = 32: a block L‖R; h = 28: C‖D of the key schedule) -/
+def bitAtN (h : Nat) (l r : UInt32) (j : Nat) : UInt32 := if j ≤ h then bitAt h l j else bitAt h r (j - h)
+
+/-- a bit-selection table of at most 32 entries applied to such a value -/
+def gatherN (h : Nat) (tbl : List Nat) (l r : UInt32) : UInt32 :=
+  (List.range tbl.length).foldl (fun acc i => acc ||| (bitAtN h l r (tbl.getD i 0) <<< (tbl.length - 1 - i).toUInt32)) 0
+
+/-- a FIPS selection table whose result is split after `k` entries (IP: 32 + 32, PC-1: 28 + 28, PC-2: 24 + 24) -/
+def selN (h : Nat) (tbl : List Nat) (k : Nat) (p : UInt32 × UInt32) : UInt32 × UInt32 :=
+  (gatherN h (tbl.take k) p.1 p.2, gatherN h (tbl.drop k) p.1 p.2)
+
+/-- a 64-entry FIPS permutation of a 64-bit block -/
+def perm64 (tbl : List Nat) (p : UInt32 × UInt32) : UInt32 × UInt32 := selN 32 tbl 32 p
+
 end Xc.Spec.DesT
